@@ -76,6 +76,9 @@ def gen(chk, mpmath, rng):
                 # polyroots: real coefficients with real roots and conjugate pairs (pairs may share |Im|)
                 reals = [Fr(rng.randint(-9, 9), rng.choice([1, 2])) for _ in range(rng.randint(0, 3))]
                 reals = sorted(set(reals))
+                if rng.random() < 0.3:
+                    # roots of widely different magnitude: a tiny one, moderate ones and a large one
+                    reals = sorted(set([Fr(rng.randint(1, 99), 2 ** rng.randint(38, 50)) * rng.choice([1, -1]), Fr(rng.randint(1, 9), 2), Fr(rng.randint(50, 900))]))
                 pairs = []
                 for _ in range(rng.randint(0, 2)):
                     pairs.append((Fr(rng.randint(-6, 6)), Fr(rng.choice([1, 2, 3, 5]))))
@@ -106,7 +109,11 @@ def gen(chk, mpmath, rng):
                     scale = ex.R(ex.add(*[ex.mul(ex.ab(ex.Qf(c)), k + 1) for k, c in enumerate(cs)]))
                     rmag = ex.R(ex.add(ex.ab(z[0]), ex.ab(z[1]), 1))
                     bound = ex.mul(ex.add(err, ex.pow2(10 - p)), scale, ex.powi(rmag, deg))
-                    js.append(ex.le(ex.cnorm2(ex.cpoly([ex.Qf(c) for c in cs], z)), ex.sq(bound)))
+                    pz = ex.cpoly([ex.Qf(c) for c in cs], z)
+                    js.append(ex.le(ex.cnorm2(pz), ex.sq(bound)))
+                    # first-order distance to the nearest root |p(r)/p'(r)| is consistent with the reported error (simple roots are planted)
+                    dz = ex.cpoly([ex.Qf(c * k) for k, c in enumerate(cs)][1:], z) if deg >= 1 else (ex.Z(1), ex.Z(0))
+                    js.append(ex.le(ex.cnorm2(pz), ex.mul(ex.sq(ex.mul(16, ex.add(err, ex.mul(ex.pow2(2 - p), rmag)))), ex.cnorm2(dz))))
                 # structure: real roots first, then conjugate pairs adjacent
                 isreal = [not hasattr(r, "_mpc_") or r.imag == 0 for r in roots]
                 nreal = sum(isreal)
